@@ -1661,7 +1661,15 @@ func (c *Ctx) ptrMayBeNil(v ssa.Value, at ssa.Instruction, depth int) string {
 			}
 			return ""
 		case *ssa.Call:
-			return c.callResultMayBeNil(t, x.Index, depth)
+			// the comma-ok convention of a module helper: (nil, …, false) returns do not count where the use is
+			// dominated by a test that found the helper's last (bool) result true
+			c.okGuardAt = nil
+			if at != nil && at.Parent() == t.Parent() {
+				c.okGuardAt = at
+			}
+			w := c.callResultMayBeNil(t, x.Index, depth)
+			c.okGuardAt = nil
+			return w
 		}
 		return ""
 	case *ssa.Call:
@@ -1763,10 +1771,27 @@ func (c *Ctx) callResultMayBeNil(call *ssa.Call, idx int, depth int) string {
 	}
 	nres := g.Signature.Results().Len()
 	hasErr := nres >= 2 && isErrorType(g.Signature.Results().At(nres-1).Type())
+	okGuarded := false
+	if at := c.okGuardAt; at != nil && nres >= 2 && idx < nres-1 {
+		if b, isB := g.Signature.Results().At(nres-1).Type().Underlying().(*types.Basic); isB && b.Kind() == types.Bool {
+			subj := fmt.Sprintf("%s#%d", c.key(call, nil), nres-1)
+			for _, a := range c.domAtoms(at.Block()) {
+				if a.Kind == "bool" && a.Pos && a.Subj == subj {
+					okGuarded = true
+				}
+			}
+		}
+	}
+	c.okGuardAt = nil
 	for _, b := range g.Blocks {
 		ret, ok := b.Instrs[len(b.Instrs)-1].(*ssa.Return)
 		if !ok || idx >= len(ret.Results) {
 			continue
+		}
+		if okGuarded {
+			if bk, isC := c.resolve(ret.Results[nres-1], nil).(*ssa.Const); isC && bk.Value != nil && bk.Value.String() == "false" {
+				continue // a "not found" return: the caller has tested for it
+			}
 		}
 		rv := c.resolve(ret.Results[idx], nil)
 		if k, ok := rv.(*ssa.Const); ok && k.IsNil() {
